@@ -196,7 +196,7 @@ def gen_case(rnd, direction=None, n_max=12, klass='wellformed', fixed=None, exte
             links.pop()
     for i, t in enumerate(tasks):
         if not ch[i] and rnd.random() < 0.15:
-            t['milestone'] = True
+            t['milestone'] = 1 if (i + n) % 3 == 0 else True      # any truthy value flags a milestone (a CSV import leaves 1)
             t['min_start'] = None
     if fixed is None:
         fixed = direction == 'fwd' and rnd.random() < 0.5
